@@ -125,10 +125,16 @@ def run(tier: str, rep: Report):
                      {"id": "future:all", "src": "from __future__ import division, print_function, unicode_literals, absolute_import, "
                                                  "with_statement, generator_stop, nested_scopes, generators, annotations\nx = 1\n"}]
             srcs += [{"id": f"sn:{i}:o{o}", "src": s, "mode": m, "optimize": o} for i, (m, s) in enumerate(df.SNIPPETS) for o in (0, 1, 2)]
-            k += 1
-            f = str(wd / f"src-{v}-{k}.ndjson")
-            files.append(f)
-            jobs[v].append(("encode.sources_to_file", {"sources": srcs, "path": f, "normalized": False}))
+            if tier == "thorough":
+                if not hasattr(rep, "_hypo"):
+                    rep._hypo = corpus.hypothesmith_sources(3000, wd)
+                    rep.cov["hypothesmith_programs"] = len(rep._hypo)
+                srcs += rep._hypo
+            for ch in chunks(srcs, 400):
+                k += 1
+                f = str(wd / f"src-{v}-{k}.ndjson")
+                files.append(f)
+                jobs[v].append(("encode.sources_to_file", {"sources": ch, "path": f, "normalized": False}))
 
         def runjobs(v):
             ws = pool.workers[v]
